@@ -36,6 +36,8 @@ package mautil
 
 //@ func FindHTTPAddrs
 //@   property C20
+//@   pure
+//@   ensures isfresh(result)
 //@   ensures-local count("call:FilterAddrs") == 1
 
 // FilterPublic's predicate: nil entries pass through (dropping them is
